@@ -343,6 +343,12 @@ func genC09(t *rapid.T) c09Case {
 		name := nm.draw(t)
 		have := c.Tree.Variables()
 		switch k := rapid.IntRange(0, 9).Draw(t, "unknownKeyForm"); {
+		case k == 7:
+			// shaped like an ellipsis, but the template has no such ellipsis: an unknown key like any other
+			name = "...[57]"
+			if !withEllipsis && rapid.Bool().Draw(t, "plainEllipsisKey") {
+				name = "..."
+			}
 		case k == 9:
 			name = "" // no variable has the empty name
 		case k == 8:
